@@ -1,6 +1,8 @@
 import IblVerif.Model.Proto
 import IblVerif.Model.FsCompress
 import IblVerif.Model.ChunkRead
+import IblVerif.Model.FsCompressEffects
+import IblVerif.Model.FsCompressPath
 open IblVerif IblVerif.Proto IblVerif.FsCompress
 
 /-
@@ -16,6 +18,13 @@ Line protocol of C02 (stateful: the directory of the current case).
   slice <sizes> <start> <stop> <step>   _raw[start:stop:step] on both backends; rows are numbered 0.. ; N = None
   index <sizes> <i>                 _raw[i] on both backends
   openns <metaNs> <frame> <nbytes> <chNs>   sample count exposed by Reader.open on x.cbin / x.bin when x.meta announces metaNs
+  crash compress <fb> <keep> <k>    compress_file interrupted after exactly k primitive effects (FsCompressEffects.crashCompress)
+  crash decompress <fb> <keep> <ov> <k>   decompress_file (default out) interrupted after k primitive effects
+  crash toscratch <fb> <scratch> <k>      decompress_to_scratch interrupted after k primitive effects
+  calls compress <keep> | calls decompress <keep> | calls toscratch <scratch> <present>    the call lists (source vocabulary)
+  suffix <name> | stem <name> | withsuffix <name> <suf> | ismtscomp <name>     pathlib / Reader.is_mtscomp on file names
+  companion <dir> <name> <pattern> <stemNoUuid> | resolve <dir> <name> <stemNoUuid> | chfile <dir> <name> <stemNoUuid>
+                                    names: `~` = empty string; dir: comma separated names in glob order, `!` = empty
 
 Answers: `<outcome> fb=<bin|cbin> | <state>` for calls, `<ok bin|ok cbin|ok none|err X> rec=<chunks>` for open,
 `cbin=<…> bin=<…>` for reads.
@@ -81,6 +90,30 @@ def bothBackends (sizes : List Nat) (nsel : ChunkRead.NSel) : String :=
   s!"cbin={showBlock (ChunkRead.readM (ChunkRead.rawCbin chunks) id nsel)} " ++
   s!"bin={showBlock (ChunkRead.readM (ChunkRead.rawBin chunks.flatten) id nsel)}"
 
+/-- An interrupted call: a call the code refuses answers with its error and the state the refusal leaves (`refused`);
+otherwise the directory is the one after exactly `k` primitive effects (`fs'`), the exception propagates (`err Fault`) and
+the reader keeps its `file_bin`. -/
+def crashAnswer (g : Hist Nat Nat) (fb : DataName) (refusal : Outcome) (refused fs' : Fs Nat Nat) : Hist Nat Nat × String :=
+  match refusal with
+  | .err e =>
+    if e = .fault then ({ g with fs := fs' }, s!"err Fault fb={showName fb} | {showFs fs'}")
+    else ({ g with fs := refused }, s!"{showOutcome refusal} fb={showName fb} | {showFs refused}")
+  | .ok => ({ g with fs := fs' }, s!"err Fault fb={showName fb} | {showFs fs'}")
+
+def showCall : Call → String
+  | .mtsCompress => "mtscomp.compress" | .renameTmp => "rename_tmp" | .unlinkBin => "unlink_bin"
+  | .setFileBin d => "file_bin=" ++ showName d
+  | .mtsDecompress o ov => s!"mtscomp.decompress({repr o},{ov})" | .closeMts => "r.close" | .closeSelf => "self.close"
+  | .unlinkCbin => "unlink_cbin" | .unlinkCh => "unlink_ch" | .mkdirScratch => "mkdir" | .copyMeta => "copy_meta"
+  | .decompressFile k o ov => s!"decompress_file({k},{repr o},{ov})" | .moveTemp b => s!"move_temp({b})"
+
+def nm? (s : String) : FsPath.Name := if s = "~" then [] else s.toList
+def showNm (n : FsPath.Name) : String := if n.isEmpty then "~" else String.ofList n
+def dir? (s : String) : List FsPath.Name := if s = "!" then [] else (s.splitOn ",").map nm?
+def showOptNm : Option FsPath.Name → String
+  | some n => "ok " ++ showNm n
+  | none => "err ValueError"
+
 def step (s : Hist Nat Nat) (t : List String) : Hist Nat Nat × String :=
   match t with
   | ["init", n, pat] =>
@@ -131,6 +164,47 @@ def step (s : Hist Nat Nat) (t : List String) : Hist Nat Nat × String :=
     match nat? m, nat? f, nat? nb, nat? ch with
     | some m, some f, some nb, some ch => (s, s!"cbin={ChunkRead.openNsCbin m ch} bin={ChunkRead.openNsBin m f nb}")
     | _, _, _, _ => (s, "bad-op")
+  | ["crash", "compress", fb, keep, k] =>
+    match name? fb, bool? keep, nat? k with
+    | some fb, some keep, some k =>
+      crashAnswer s fb (compressFile codec s.fs fb keep none false).2.2 s.fs (crashCompress codec s.fs fb keep k)
+    | _, _, _ => (s, "bad-op")
+  | ["crash", "decompress", fb, keep, ov, k] =>
+    match name? fb, bool? keep, bool? ov, nat? k with
+    | some fb, some keep, some ov, some k =>
+      crashAnswer s fb (decompressFile codec s.fs fb keep .bin ov none).2 s.fs (crashDecompress codec s.fs fb keep ov k)
+    | _, _, _, _ => (s, "bad-op")
+  | ["crash", "toscratch", fb, scratch, k] =>
+    match name? fb, bool? scratch, nat? k with
+    | some fb, some scratch, some k =>
+      -- (a call that finds its target already there is not interrupted: it is not generated)
+      crashAnswer s fb (toScratch codec s.fs fb scratch none false).2 (toScratch codec s.fs fb scratch none false).1
+        (crashToScratch codec s.fs fb scratch k)
+    | _, _, _ => (s, "bad-op")
+  | ["calls", "compress", keep] =>
+    match bool? keep with
+    | some keep => (s, " ".intercalate ((compressCalls keep).map showCall))
+    | none => (s, "bad-op")
+  | ["calls", "decompress", keep] =>
+    match bool? keep with
+    | some keep => (s, " ".intercalate ((decompressCalls keep .bin false).map showCall))
+    | none => (s, "bad-op")
+  | ["calls", "toscratch", scratch, present] =>
+    match bool? scratch, bool? present with
+    | some scratch, some present => (s, " ".intercalate ((toScratchCalls scratch present).map showCall))
+    | _, _ => (s, "bad-op")
+  | ["suffix", n] => (s, showNm (FsPath.suffix (nm? n)))
+  | ["stem", n] => (s, showNm (FsPath.stem (nm? n)))
+  | ["withsuffix", n, suf] => (s, showOptNm (FsPath.withSuffix (nm? n) (nm? suf)))
+  | ["ismtscomp", n] => (s, if FsPath.isMtscomp (nm? n) then "True" else "False")
+  | ["companion", d, n, pat, st] => (s, showOptNm (FsPath.companion (dir? d) (nm? n) (nm? pat) (nm? st)))
+  | ["chfile", d, n, st] => (s, showOptNm (FsPath.chFile (dir? d) (nm? n) (nm? st)))
+  | ["resolve", d, n, st] =>
+    -- self.nbytes = self.file_bin.stat().st_size if self.file_bin else None      (FileNotFoundError)
+    (s, match FsPath.resolveName (dir? d) (nm? n) (nm? st) with
+        | some (some f) => if (dir? d).contains f then "ok " ++ showNm f else "err FileNotFoundError"
+        | some none => "ok none"
+        | none => "err ValueError")
   | ["index", sizes, i] =>
     match natList? sizes, int? i with
     | some sizes, some i => (s, bothBackends sizes (.index i))
